@@ -25,7 +25,7 @@ META = {
     "bound": {
         "quick": "P in {2,3,4}; n_alleles in {(2,2),(3,2),(2,2,2)} (P=4: (2,2) and (2,2,2)); 2 read sets; (F,T) in {(0,1),(0.3,1),(0.3,0.5),(0.1,0.25)}; "
         "all contiguous intervals; ladders (0.5,1),(0.25,0.5,1); orchestration: ladders 1..3, 2 steps (3 temps: 1 step)",
-        "thorough": "adds P=3x(3,3), P in {5,6}x(2,2), P=3x(2,2,2,2), P=4x(3,2); F in {0,0.05,0.3,0.9}; T in {1,0.5,0.1}",
+        "thorough": "adds P=3x(3,3), P in {5,6}x(2,2), P=3x(2,2,2,2), P=4x(3,2), P=4x(3,3), P=3x(3,2,2), P=2x(2,2,2,2), P=2x(3,3,2), P=2x(4,2); F in {0,0.05,0.3,0.9}; T in {1,0.5,0.1}",
     },
     "assumptions": [
         "py_func and the compiled dispatcher execute the same source; machine-level divergence is checked by predicting the "
@@ -60,7 +60,7 @@ def instances(tier):
             out.append((P, A))
     out += [(4, (2, 2)), (4, (2, 2, 2))]
     if tier == "thorough":
-        out += [(3, (3, 3)), (5, (2, 2)), (6, (2, 2)), (3, (2, 2, 2, 2)), (4, (3, 2))]
+        out += [(3, (3, 3)), (5, (2, 2)), (6, (2, 2)), (3, (2, 2, 2, 2)), (4, (3, 2)), (4, (3, 3)), (3, (3, 2, 2)), (2, (2, 2, 2, 2)), (2, (3, 3, 2)), (2, (4, 2))]
     return out
 
 
